@@ -490,6 +490,13 @@ _VARIANTS = {'core::option::Option': ['None', 'Some'], 'core::result::Result': [
 
 
 def _closure_has_effects(cj):
+    # ... or it calls a constructor / encoder of the crate's value type, whose argument the range and provenance rules follow
+    for bl in cj['blocks']:
+        t = bl['term']
+        if t['k'] == 'call':
+            nm = t['callee'].get('resolved') or t['callee'].get('path') or ''
+            if nm in ('object::Object::int', 'object::Object::try_int', 'object::Object::bool', 'object::Object::function', 'object::Object::with_type'):
+                return True
     for bl in cj['blocks']:
         for st in bl['stmts']:
             if st['k'] == 'assign' and any(e == 'deref' for e in st['place']['proj']):
